@@ -144,7 +144,13 @@ class Gen:
             st["sem"] = "amo"
         if fn_may_fail(st["fn"]) or rng.random() < 0.3:
             st["retry"] = gen_retry(rng, prof)
+        self.custom_serdes(st)
         return st
+
+    def custom_serdes(self, st):
+        """A well-behaved user-supplied SerDes (type-preserving, own prefix): results must survive it on every replay."""
+        if self.rng.random() < self.prof.get("serdes_p", 0.1):
+            st["fserdes"] = {"tag": self.rng.choice(["A", "C", "K"])}
 
     def ext(self, kind):
         rng = self.rng
@@ -237,11 +243,13 @@ class Gen:
             strat = [{"cont": rng.choice([0, 1, 1, 3, 30])} for _ in range(n - 1)] + [{"stop": 1}]
             st = {"op": "wfcond", "check": {"attempts": att}, "strategy": strat,
                   "initial": gen_value(rng, 1, prof.get("rich", True))}
+            self.custom_serdes(st)
             return self.wrap_try(st, 0.8)
         if k == "child":
             st = {"op": "child", "body": self.seq(depth + 1, in_branch, lo=1, hi=3)}
             if rng.random() < 0.3:
                 st["ret"] = gen_value(rng, 0, prof.get("rich", True))
+            self.custom_serdes(st)
             return self.wrap_try(st, 0.4)
         if k in ("parallel", "map"):
             nb = rng.choice(prof.get("branch_counts", [1, 2, 2, 3, 3, 4]))
@@ -274,6 +282,13 @@ class Gen:
                 st["cfg"] = cfg
             elif not prof.get("early_exit", True):
                 st["cfg"] = {"tol": nb}
+            if "cfg" in st and rng.random() < prof.get("serdes_p", 0.1) * 2:
+                # custom SerDes for the batch result, for the items, or both (each with its own prefix)
+                which = rng.choice(["serdes", "item_serdes", "both"])
+                if which in ("serdes", "both"):
+                    st["cfg"]["serdes"] = "B"
+                if which in ("item_serdes", "both"):
+                    st["cfg"]["item_serdes"] = "I"
             return st
         raise AssertionError(k)
 
